@@ -190,6 +190,20 @@ class PropsDriver:
                 setattr(self.o, DECL[pid][5], concrete(pid, 0))
         for pid in LAYOUTS[layout]['order']:
             setattr(self.twin, DECL[pid][5], concrete(pid, 3))
+        # an object of the BASE class was asked for every property first (it lacks the ones the subclass declares): what
+        # is unknown there says nothing about the subclass
+        try:
+            base_obj = Sub.__bases__[0]('/base')
+            hb = objects.DBusObjectHandler(Conn())
+            hb.exportObject(base_obj)
+            for pid, (iface, name, sig, access, emits, attr, base) in DECL.items():
+                for ia in (iface, ''):
+                    c = message.MethodCallMessage('/base', 'Get', interface=PROPIF, destination=':1.2', signature='ss', body=[ia, name])
+                    pm = message.parseMessage(c.rawMessage, [])
+                    pm.sender = ':1.8'
+                    hb.handleMethodCallMessage(pm)
+        except Exception:
+            pass                  # (whatever the base class makes of that is not what is being checked)
         # the object was first offered on another connection of the process and withdrawn from it again after this
         # connection had taken it over: what it announces goes out here
         self.conn0 = Conn()
